@@ -46,6 +46,26 @@ def run(tier, seed, replay=None):
             y = torchtt.TT([c * (ysc if k_ == 0 else 1.0) for k_, c in enumerate(y.cores)])
             x = solverkit.rand_tt_float(rng, N, [1, 2, 2, 1], dt)
             form = ["x/y", "scalar/y", "elementwise_divide"][i - 1]; dist["tiny divisor"] = dist.get("tiny divisor", 0) + 1
+        force_c = False
+        if i in (4, 5, 6) and not big:
+            # engineered: equal mode sizes, quotient ranks that saturate at the mode size, a local problem of 500+ unknowns: the preconditioned iterative
+            # local solve of elementwise_divide is entered with mode size = right rank
+            N = [[10, 10, 10], [9, 9, 9], [8, 8, 8, 8]][i - 4]; d = len(N); cdt = dt; force_c = True
+            z = solverkit.rand_tt_float(rng, N, [1] + [[2, 1, 2][i - 4]] * (d - 1) + [1], dt); z = z * (1.0 / max(1e-300, float(z.full().abs().max())))
+            y = (z * z + 1.0).round(1e-14)
+            x = solverkit.rand_tt_float(rng, N, [1] + [[3, 4, 2][i - 4]] * (d - 1) + [1], dt)
+            form = "elementwise_divide"; dist["equal modes, preconditioned iterative local solve"] = dist.get("equal modes, preconditioned iterative local solve", 0) + 1
+        elif not big and i not in (1, 2, 3) and rng.random() < 0.35:
+            # divisors bounded away from zero need not be positive: all entries negative, or a rank-one pattern of signs
+            sgn = rng.choice(["negative", "mixed signs"])
+            if sgn == "negative": y = torchtt.TT([(-c if k_ == 0 else c.clone()) for k_, c in enumerate(y.cores)])
+            else:
+                sc_ = []
+                for n_ in N:
+                    v_ = torch.tensor([rng.choice([-1.0, 1.0]) for _ in range(n_)], dtype=torch.float64); v_[rng.randrange(n_)] = -1.0
+                    sc_.append(v_.reshape(1, n_, 1).to(y.cores[0].dtype))
+                y = y * torchtt.TT(sc_)
+            dist["divisor " + sgn] = dist.get("divisor " + sgn, 0) + 1
         sd = rng.randrange(1 << 30); torch.manual_seed(sd)
         desc = {"form": form, "N": N, "rank_x": [int(r) for r in x.R], "rank_y": [int(r) for r in y.R], "torch_seed": sd, "dtype": str(cdt)}
         dist[form] = dist.get(form, 0) + 1
@@ -79,7 +99,8 @@ def run(tier, seed, replay=None):
             else:
                 tol = rng.choice([1e-10, 1e-8, 1e-6, 1e-4])
                 prec = rng.choice([None, "c"])
-                if rng.random() < 0.4:
+                if force_c: prec = "c"; tol = 1e-10
+                if rng.random() < 0.4 and not force_c:
                     kind = rng.choice(["random", "zeros", "ones"])
                     guess = solverkit.rand_tt_float(rng, N, solverkit.ranks(rng, d, 2), dt) if kind == "random" else (torchtt.zeros(N, dtype=dt) if kind == "zeros" else torchtt.ones(N, dtype=dt))
                     if cdt != dt: guess = torchtt.TT([c.to(cdt) for c in guess.cores])
